@@ -172,7 +172,9 @@ def typegen_modules(run, tg, seed):
 def pipeline_from_tables(run, mods, max_ops):
     mpath = run.path('modules.ndjson')
     pl.write_cases(mods, mpath)
-    tshards = pl.drive(run, 'drive_stateless.py', mpath, 'tables', ['--mode', 'table', '--max-ops', str(max_ops)])
+    njobs = sum(len(m['codecs']) for m in mods)
+    tshards = pl.drive(run, 'drive_stateless.py', mpath, 'tables', ['--mode', 'table', '--max-ops', str(max_ops)],
+                       nshards=max(1, min(pl.NPROC, njobs)))
     tables = []
     for s in tshards:
         with open(s) as f:
